@@ -1,15 +1,49 @@
-from checks.common import Build, Job
+from checks.lfht_common import *  # noqa
 
 PROP = "C08"
-BUILDS = [Build("lfht", "harness/c05_lfht.c", flavor="spec", cds=True)]
-RULE = "tbd"
-ASSUMPTIONS = []
+RULE = ("explicit-state enumeration of ALL operation sequences of length len over the alphabet {add, add_unique, add_replace, replace "
+        "first/second match, del first/second match, replace with a mismatching key} x keys, resize(n) for n in {0,1,2,3,4,5,8,16,"
+        "ULONG_MAX,2^63,6,7} and destroy, executed by one thread on the real rculfhash code; after every step the full traversal, "
+        "lookup + next_duplicate of every key, count_nodes (and the split counters), is_node_deleted, double-del / stale-iterator "
+        "replace results and the bucket-count bounds are compared with a reference multimap; sequences are pruned at canonical states "
+        "(traversal order of keys, size, resize target, counters, allocator balance, configuration) already expanded with at least "
+        "as many remaining steps; configurations (init, min, max in {0,1,2,3/6,4,8}, flags in {0,AUTO_RESIZE,ACCOUNTING,both}, "
+        "order/chunk/mmap/default allocator, recording custom cds_lfht_alloc) are enumerated as initial choices; AUTO_RESIZE tables "
+        "additionally run with one preemption so the resize worker interleaves; a case is an executed sequence, non-trivial ones are "
+        "those that were not cut at an already expanded state")
+ASSUMPTIONS = ["canonical-state key distinguishes every state with different futures (errs on the fine side; 64-bit hash collisions ignored)",
+               "specification flavor", "node identity is irrelevant to the table (fresh node per insertion)"]
 DEADLINE = {"quick": 170, "thorough": 1700}
 
 
 def jobs(tier):
-    return [Job("lfht", "seq", "0,0,0,0", {"len": 3, "keys": 2}, workers=16)]
+    q = tier == "quick"
+    J = []
+    for hm in (2, 0, 3, 1):
+        J.append(seq(len=7 if q else 9, keys=2, hmap=hm, workers=16))
+        J.append(seq(len=5 if q else 6, keys=3 if hm != 1 else 4, hmap=hm, workers=16))
+    # every allocator x flags x custom allocator (AUTO_RESIZE ones have a worker thread)
+    J.append(seq(len=4 if q else 5, keys=2, hmap=2, mm=-1, flags=-1, custom=-1, workers=16))
+    J.append(seq(len=4 if q else 5, keys=2, hmap=1, mm=-1, flags=-1, custom=0, init=2, minb=2, maxb=4, workers=16))
+    # the whole parameter grid of cds_lfht_new (5760 combinations incl. rejected ones)
+    J.append(seq(len=1 if q else 2, keys=2, hmap=2, init=-1, minb=-1, maxb=-1, flags=-1, mm=-1, custom=-1, workers=16))
+    # lazy resizes: chain-length driven and counter driven, worker interleaved (1 preemption)
+    J.append(seq(len=6 if q else 7, keys=4, hmap=1, flags=1, nresize=3, workers=8))
+    J.append(seq("1,0,0,0", len=4 if q else 5, keys=4, hmap=1, flags=1, nresize=3, workers=8))
+    J.append(seq(len=6, keys=2, hmap=1, flags=3, count_commit_order=0, nresize=3, workers=8))
+    J.append(seq("1,0,0,0", len=4 if q else 5, keys=2, hmap=1, flags=3, count_commit_order=1, nresize=3, workers=8))
+    return J
 
 
-LEVEL_TEXT = "tbd"
-LEVEL_NOTE = "tbd"
+def extra(results):
+    pruned = sum(r[3].get("pruned", 0) for r in results if r[3])
+    return {"pruned_at_expanded_state": pruned}
+
+
+TECHNIQUE = ("explicit-state enumeration of all operation sequences up to a depth on the real code (state = history replayed on a fresh "
+             "table, pruned at canonical states), every step compared with a reference multimap")
+LEVEL_TEXT = ("Every operation sequence up to the stated depth, for every enumerated configuration, is executed on the real code and compared "
+              "step by step with a reference multimap; exhaustive within the depth bound.")
+LEVEL_NOTE = ("Trusted: the reference multimap, the canonical-state key used for pruning. Bounds: depth 7 (2 keys) / 5 (3-4 keys) quick, 9 / 6 "
+              "thorough; configuration grid at depth 1 quick, 2 thorough; hashes from 4 adversarial maps (all equal, straddling a split, "
+              "0 / ~0 / top bit only, distinct).")
